@@ -30,7 +30,8 @@ def adapters():
 
 def build(desc, i, rnd):
     names = [n for _, n in desc.get_field_tuples()]
-    vals = {"n": i, "s": rnd.choice(["", "a", "Ab", "b"]), "l": rnd.choice([[], ["a"], ["a", "b"], ["Ab"]]), "z": None, "t": rnd.choice([True, False]), "q": rnd.choice(["a", "x"])}
+    vals = {"n": i, "s": rnd.choice(["", "a", "Ab", "b"]), "l": rnd.choice([[], ["a"], ["a", "b"], ["Ab"]]), "z": None, "t": rnd.choice([True, False]), "q": rnd.choice(["a", "x"]),
+            "ip": rnd.choice(["10.0.0.1", "10.0.0.2", None]), "p": rnd.choice(["/a", "/a/B", None]), "w": rnd.choice(["a", "zz"])}
     return desc(**{k: vals[k] for k in names}, _generated=gen.GEN)
 
 
